@@ -49,6 +49,18 @@ func main() {
 			fmt.Fprintln(os.Stderr, "no replayer for", v.Property)
 			os.Exit(2)
 		}
+		// executions that preceded the violating one in its process are replayed first (results ignored)
+		for _, hb := range v.History {
+			var hv props.Violation
+			if json.Unmarshal(hb, &hv) == nil {
+				if hc := props.Registry[hv.Property]; hc != nil && hc.Replay != nil {
+					func() {
+						defer func() { _ = recover() }()
+						hc.Replay(&hv)
+					}()
+				}
+			}
+		}
 		if msg := ch.Replay(&v); msg != "" {
 			fmt.Printf("REPRODUCED property=%s signature=%q\n%s\n", v.Property, v.Signature, msg)
 			os.Exit(1)
